@@ -396,8 +396,11 @@ def arr_desc(rng, kind, dtype, ncols, n=None, bad=0.12):
         ndim = rng.choice([0, 3] + ([2] if kind != "D" else []))
         nc = 2 if ndim == 2 else 1
     elif m < bad and kind == "D":
-        ndim = 2
-        nc = rng.choice([c for c in (1, 2, 3, 4) if c != ncols])
+        if ncols >= 2 and rng.random() < 0.4:
+            ndim, nc = 1, 1          # a 1-D array is ONE signal: not what a waveform of several signals takes
+        else:
+            ndim = 2
+            nc = rng.choice([c for c in (1, 2, 3, 4) if c != ncols])
     hi = 2 if dtype == "bool" else 8 if kind == "D" else 100
     vals = [[rng.randrange(hi) for _ in range(nc)] for _ in range(n)]
     form = rng.choice(["own", "own", "view", "strided"] + (["fortran", "fortran"] if ndim == 2 else []))
@@ -931,6 +934,14 @@ def scripted(rng):
                {"op": "append_arr", "i": 0, "arr": mk(m), "ts": [(20 + j) * u for j in range(m)]},
                {"op": "get", "i": 0}]
         out.append({"ops": ops})
+    # a DigitalWaveform of several signals offered a 1-D array (one signal): refused by append and by load_data alike
+    for ncols in (2, 3):
+        mk2 = lambda n: {"vals": [[rng.randrange(2) for _ in range(ncols)] for _ in range(n)], "ndim": 2, "ncols": ncols, "dtype": "uint8", "form": "own"}
+        mk1 = lambda n: {"vals": [[rng.randrange(2)] for _ in range(n)], "ndim": 1, "ncols": 1, "dtype": "uint8", "form": "own"}
+        out.append({"ops": [{"op": "from_array", "kind": "D", "arr": mk2(2), "via": "ctor", "scale": 0, "props": {}},
+                            {"op": "append_arr", "i": 0, "arr": mk1(2)}, {"op": "append_arr", "i": 0, "arr": mk1(0)},
+                            {"op": "load", "i": 0, "arr": mk1(2), "copy": True}, {"op": "get", "i": 0},
+                            {"op": "append_arr", "i": 0, "arr": mk2(1)}, {"op": "get", "i": 0}]})
     # REGULAR receiver and source whose sample intervals differ by one unit out of 8.64e18 (equal as float seconds): still a
     # differing interval, so a TimingMismatchWarning; and the same interval: none
     for kind in ("A", "C", "D"):
